@@ -1628,6 +1628,15 @@ impl IoSim {
                                     format!("write-failure-reported-as-success|{}", format.tag()),
                                     format!("sink failed at byte {} of {} ({}) but the serializer returned Ok", k, file.len(), if *zero { "Ok(0)" } else { "error" }),
                                 );
+                            } else if w.disk.len() < file.len() {
+                                // The sink could only take k bytes (a short write up to the
+                                // fault), the serializer never came back for the rest and
+                                // still reported success: the output is silently truncated.
+                                ctx.count("fault_fired:W-short-before-fault");
+                                ctx.violate(
+                                    format!("write-failure-reported-as-success|{}", format.tag()),
+                                    format!("sink accepted only {} of {} bytes (it fails at byte {}), the serializer did not write the rest and returned Ok", w.disk.len(), file.len(), k),
+                                );
                             }
                         }
                         Ok(Err(_)) => {}
